@@ -1,12 +1,75 @@
 import Driver.Util
-open Drv
+import Faithful.Lib.Stream
+import Faithful.Generated.Consts
+open Drv Stream
 
 namespace DrvC19
+
+/-- the constants of the tree -/
+def P : Params := ⟨Generated.epochLen, Generated.streamGsfaBatchSize, Generated.maxSlotsToStream⟩
+
+structure St where
+  epochs : Array (Nat × Array (Nat × Array Tx)) := #[]
+  frozen : Option (List Epoch) := none
+
+def St.archive (st : St) : List Epoch :=
+  st.epochs.toList.map fun (n, bs) => { num := n, blocks := bs.toList.map fun (s, ts) => { slot := s, txs := ts.toList } }
+
+def ids (s : String) : List Nat := if s = "-" then [] else (s.splitOn ",").map String.toNat!
+
+def tri (s : String) : Option Bool := if s = "t" then some true else if s = "f" then some false else none
+
+def parseFilter (ws : List String) : Option Filter :=
+  if ws = ["nil"] then none else
+  let get (k : String) : String :=
+    match ws.find? (fun w => w.startsWith (k ++ "=")) with
+    | some w => (w.drop (k.length + 1)).toString
+    | none => "-"
+  some { vote := tri (get "v"), failed := tri (get "f"), inc := ids (get "i"), exc := ids (get "x"), req := ids (get "r") }
+
+def hiOf (s : String) : Option Nat := if s = "-" then none else some s.toNat!
+
+def showTxs (l : List Tx) : String :=
+  l.foldl (fun acc t => acc ++ s!" {t.slot}:{t.pos}") s!"ok {l.length}"
+
+def showBlocks (l : List Block) : String :=
+  l.foldl (fun acc b => acc ++ s!" {b.slot}/{b.txs.length}") s!"ok {l.length}"
+
+def step (st : St) (l : String) : St × String :=
+  match words l with
+  | "world" :: _ => ({}, "ok")
+  | "acct" :: _ => (st, "ok")
+  | ["epoch", n] => ({ st with epochs := st.epochs.push (n.toNat!, #[]), frozen := none }, "ok")
+  | ["block", s, _] =>
+    match st.epochs.back? with
+    | none => (st, "bad-op")
+    | some (n, bs) => ({ st with epochs := st.epochs.pop.push (n, bs.push (s.toNat!, #[])), frozen := none }, "ok")
+  | ["tx", s, p, v, f, stc, ld] =>
+    match st.epochs.back? with
+    | none => (st, "bad-op")
+    | some (n, bs) =>
+      match bs.back? with
+      | none => (st, "bad-op")
+      | some (bslot, ts) =>
+        let t : Tx := { slot := s.toNat!, pos := p.toNat!, static := ids stc, loaded := ids ld, isVote := v == "1", failed := f == "1" }
+        ({ st with epochs := st.epochs.pop.push (n, bs.pop.push (bslot, ts.push t)), frozen := none }, "ok")
+  | "streamtx" :: lo :: hi :: g :: _via :: fw =>
+    let es := st.frozen.getD st.archive
+    let r := streamTransactions P es lo.toNat! (hiOf hi) (parseFilter fw) (g == "gsfa=1")
+    ({ st with frozen := some es }, showTxs r)
+  | ["streamblocks", lo, hi, f] =>
+    let es := st.frozen.getD st.archive
+    let flt : Option (List Acct) := if f = "nil" then none else some (ids f)
+    ({ st with frozen := some es }, showBlocks (streamBlocks P es lo.toNat! (hiOf hi) flt))
+  | _ => (st, "bad-op")
 
 /-- model side of the C19 line protocol: one answer line per op line -/
 def run (lines : Array String) : IO Unit := do
   let out ← IO.getStdout
-  for _ in lines do
-    out.putStrLn "unimplemented"
+  let mut st : St := {}
+  for l in lines do
+    let (st', o) := step st l
+    st := st'
+    out.putStrLn o
 
 end DrvC19
